@@ -273,3 +273,58 @@ mut("c03-finalised-flag-on-class", "C03", MC,
     "        self.out_file.seek(0)\n        VbsWriter._finalised = True",
     more=[(MC, "        self._finalised = False\n        self.out_file = out_file", "        self.out_file = out_file")],
     note="finalised flag kept on the class: the first writer of a process finalises, every later one silently does not (no terminator / no 1014 fill). A single scenario replayed alone passes; the check must fall back to a task-history replay")
+
+# ---- semantics-preserving refactors: negative controls that must stay green on EVERY check ---------------
+REFACTORS = []
+
+
+def refactor(mid, file, old, new, note, more=()):
+    for prop in ("C03", "C04", "C05", "C06", "C07", "C08", "C09", "C10", "C11"):
+        if prop in REFACTOR_PROPS.get(mid, ()):
+            mut(f"{mid}@{prop}", prop, file, old, new, expect="clean", note="refactor (negative control): " + note, more=more)
+
+
+REFACTOR_PROPS = {
+    "rf-writer-single-write-call": ("C03", "C06", "C09", "C11"),
+    "rf-blocker-buffers-whole-blocks": ("C03", "C04", "C06", "C09", "C11"),
+    "rf-reader-private-counters": ("C06", "C09", "C10"),
+    "rf-short-length-is-an-error": ("C03", "C07", "C09", "C10"),
+    "rf-tools-return-1": ("C07", "C10"),
+    "rf-pds-tags-must-be-digits": ("C06", "C07", "C08", "C10"),
+}
+refactor("rf-writer-single-write-call", MC,
+         "        self.out_file.write(record_length_raw)\n        # add data to output\n        self.out_file.write(record)",
+         "        # add data to output\n        self.out_file.write(record_length_raw + record)",
+         "VbsWriter writes prefix and data in one call (different I/O pattern, different torn writes)")
+refactor("rf-blocker-buffers-whole-blocks", MC,
+         "    def write(self, bytes_to_write: bytes) -> None:\n        \"\"\"\n        Write requested bytes to the output file object.\n        \"\"\"\n",
+         "    def write(self, bytes_to_write: bytes) -> None:\n        \"\"\"\n        Write requested bytes to the output file object.\n        \"\"\"\n        self._pending = self._pending + bytes_to_write\n        while len(self._pending) >= 1012:\n            self.file_obj.write(self._pending[:1012] + self.PAD_CHAR * 2)\n            self._pending = self._pending[1012:]\n        return\n",
+         "Block1014 buffers and writes whole 1014-byte blocks only; the rest is flushed by finalise",
+         more=[(MC, "        self.file_obj.write(self.PAD_CHAR * (self.remaining_chars + 2))\n        self.remaining_chars = 1012",
+                    "        _p = self._pending\n        self.file_obj.write(_p + self.PAD_CHAR * (1012 - len(_p) + 2))\n        self._pending = b''\n        self.remaining_chars = 1012"),
+               (MC, "        self.file_obj = file_obj\n        self.remaining_chars = 1012", "        self.file_obj = file_obj\n        self._pending = b''\n        self.remaining_chars = 1012")])
+refactor("rf-reader-private-counters", MC,
+         "    record_number = 1\n    last_record = None\n",
+         "    _record_number = 1\n    _last_record = None\n",
+         "VbsReader keeps its counter and last record in private attributes",
+         more=[(MC, "                                  record_number=self.record_number,\n                                  binary_context_data=record_length_raw)",
+                    "                                  record_number=self._record_number,\n                                  binary_context_data=record_length_raw)"),
+               (MC, "                                  record_number=self.record_number,\n                                  binary_context_data=record_length_raw + record)",
+                    "                                  record_number=self._record_number,\n                                  binary_context_data=record_length_raw + record)"),
+               (MC, "        self.last_record = record_length_raw + record  # save last record read\n        self.record_number += 1    # increment record counter",
+                    "        self._last_record = record_length_raw + record  # save last record read\n        self._record_number += 1    # increment record counter"),
+               (MC, "                binary_context_data=self.last_record,\n                record_number=self.record_number - 1,",
+                    "                binary_context_data=self._last_record,\n                record_number=self._record_number - 1,")])
+refactor("rf-short-length-is-an-error", MC,
+         "                           f' got {len(record_length_raw)} -- assuming end of data')\n            raise StopIteration",
+         "                           f' got {len(record_length_raw)} -- assuming end of data')\n            if record_length_raw:\n                raise MciIpmDataError('Truncated record length', record_number=self.record_number,\n                                      binary_context_data=record_length_raw)\n            raise StopIteration",
+         "a cut inside a length field raises the library's data error (with the bytes that exist) instead of ending the iteration")
+refactor("rf-tools-return-1", "cardutil/cli/mci_ipm_to_csv.py",
+         "        print_check_details(in_ipm_info)\n        return -1",
+         "        print_check_details(in_ipm_info)\n        return 1",
+         "tools signal failure with 1 instead of -1 (diagnostic still printed)",
+         more=[("cardutil/cli/mideu.py", "        print_exception_details(err)\n        return -1", "        print_exception_details(err)\n        return 1")])
+refactor("rf-pds-tags-must-be-digits", ISO,
+         "        # get the pds length\n        try:",
+         "        if not pds_field_tag.isdigit():\n            raise Iso8583DataError(f'Invalid PDS tag {pds_field_tag!r}')\n        # get the pds length\n        try:",
+         "PDS tags that are not digits are refused (don't-care content)")
